@@ -247,6 +247,8 @@ pub enum K {
     Metrics {
         actor: usize,
         via: &'static str,
+        /// log length when the read began (MT: the values were read somewhere between `pre` and this event's position)
+        pre: u64,
         count: u64,
         avg_ns: u64,
         max_ns: u64,
